@@ -1136,7 +1136,7 @@ class ImmutableVersion(Version):
         for name in version.changed:
             node = version.nodes.get(name)
             # it might not exist if we deleted it in the version
-            if node:
+            if node is not None:
                 version.nodes[name] = ImmutableVersionedNode(node)
         # We're changing the type of the nodes dictionary here on purpose, so
         # we ignore the mypy error.
